@@ -1,5 +1,6 @@
 """C19 - Date (src/Date.cpp)"""
 from vf.core import Unit, Cut
+from vf import replay
 
 DC = 'src/Date.cpp'
 PRE = r'''
@@ -27,6 +28,7 @@ void vf_harness(void) { int d; yearFromTime_days(d); VF_CANARY(); }
     desc='yearFromTime (integer body) for EVERY day of years 0001..9999: the returned year is the proleptic Gregorian year containing that day (both the 1904-2099 fast path and the 400/100/4-year path)',
     functions=['yearFromTime'],
     assumes=['the floating entry (int)floor(t * (1 / 86400.0)) of yearFromTime equals the integer day number of t (rule R12; floating point not decided)'],
+    replay=replay.from_trace('C19/driver.cpp', ['day'], lambda v: ['day', v['day']]),
     planted=[('yft', r'else if \(d >= 366\)\s*year \+= 1;\s*return year;\s*\}\s*$', 'else if (d > 366) year += 1; return year; }')],
 )
 
@@ -46,6 +48,7 @@ void vf_harness(void) {
     entry=None, floor=3, expect=['assertion'], timeout=600,
     desc='the macro timeFromYearAsDays(y) (floating floor of y/4, y/100, y/400 terms) equals the integer day count for every year 1..10000',
     functions=['timeFromYearAsDays'],
+    replay=replay.from_trace('C19/driver.cpp', ['y'], lambda v: ['year', v['y']]),
     planted=[('m', r'/400\.0', '/400')],
 )
 
@@ -94,6 +97,7 @@ __CPROVER_assigns(g_date)
 void vf_harness(void) { int d; calc_fields(d); VF_CANARY(); }
 ''',
     entry='calc_fields', replace=['yearFromTime_days'], unwind=15, timeout=600,
+    replay=replay.from_trace('C19/driver.cpp', ['day'], lambda v: ['day', v['day']]),
     desc='for EVERY day of years 0001..9999: the month search and weekday formula of Date::calc, on top of the yearFromTime contract, give the unique proleptic Gregorian year/month/day/weekday of that day',
     functions=['Date::calc (month search, day, weekDay)', 'month_days', 'daysInYear'],
     assumes=['hours/minutes/seconds extraction in calc() uses floating fract arithmetic and is NOT decided',
@@ -120,6 +124,7 @@ void vf_harness(void) {
 }
 ''',
     entry=None, floor=3, expect=['assertion'], timeout=600,
+    replay=replay.from_trace('C19/driver.cpp', ['year', 'month', 'day'], lambda v: ['fields', v['year'], v['month'], v['day']]),
     desc='Date::construct (date part) for every year 1..9999, month, day: the instant is 86400 s times the day number those fields denote; with calc_fields: fields -> instant -> fields is the identity at day granularity',
     functions=['Date::construct (day part)'],
 )
